@@ -469,7 +469,7 @@ func (w *world) checkFrame(res *core.CaseResult, when string) {
 		_ = json.Unmarshal(w.stableSnap, &a)
 		_ = json.Unmarshal(now, &b)
 		d := gen.FirstDiff("", a, b)
-		res.Violate("c14:stable-ingress-modified:"+d, "stable Ingress changed in the store at "+d+" after "+when,
+		res.Violate("c14:stable-ingress-modified:"+topPath(d), "stable Ingress changed in the store at "+d+" after "+when,
 			nf{"scenario": w.sc, "when": when, "before": json.RawMessage(w.stableSnap), "after": json.RawMessage(now)})
 	}
 	if w.sc.Bystander != nil {
@@ -487,6 +487,20 @@ func (w *world) checkFrame(res *core.CaseResult, when string) {
 		}
 		res.Violate("c14:frame:unexpected-ingress-created", "provider created an unexpected Ingress "+k+" after "+when, nf{"scenario": w.sc, "when": when})
 	}
+}
+
+// topPath keeps the first two segments of a diff path (".metadata.labels.x" -> ".metadata.labels").
+func topPath(d string) string {
+	parts := strings.Split(strings.TrimPrefix(d, "."), ".")
+	if len(parts) > 2 {
+		parts = parts[:2]
+	}
+	for i, p := range parts {
+		if j := strings.IndexByte(p, '['); j >= 0 {
+			parts[i] = p[:j]
+		}
+	}
+	return "." + strings.Join(parts, ".")
 }
 
 // ---- applying one step until done ---------------------------------------------------------------------
